@@ -616,6 +616,35 @@ Definition T_optEsr (t : T) : option (option (bool * N * N)) :=
   | _ => None
   end.
 
+(* Differential observations carry skipped transactions as (id, error tag, error digest).  The
+   harness gives two variants fixed tags: 1001 = TransactionExpired, 1002 =
+   InvalidTransaction(Validity(TransactionExpiration)).  [norm_expired] identifies them, so that a
+   disagreement made only of this pair can be told apart (failure class 4). *)
+Definition TAG_EXPIRED : Z := 1001.
+Definition TAG_INVALID_EXPIRATION : Z := 1002.
+
+Fixpoint norm_expired (t : T) : T :=
+  match t with
+  | I z => I z
+  | L l =>
+      match l with
+      | [I a; I b; I c] =>
+          if (b =? TAG_EXPIRED) || (b =? TAG_INVALID_EXPIRATION) then L [I a; I TAG_EXPIRED; I 0]
+          else L l
+      | _ => L ((fix go (l : list T) : list T :=
+                   match l with [] => [] | x :: r => norm_expired x :: go r end) l)
+      end
+  end.
+
+Definition PC_EXPIRED_VARIANT : Z := 4.
+
+(* Pcheck of a differential case: 1 = the two strategies agree; 4 = they agree up to the
+   expired-transaction error variant; 0 = they differ *)
+Definition diff_code (nat_obs wasm_obs : T) : Z :=
+  if T_eqb nat_obs wasm_obs then 1
+  else if T_eqb (norm_expired nat_obs) (norm_expired wasm_obs) then PC_EXPIRED_VARIANT
+  else 0.
+
 Definition main7 (input observed : T) : T :=
   match input with
   (* pack_ptr_and_len then unpack_ptr_and_len *)
@@ -677,11 +706,12 @@ Definition main7 (input observed : T) : T :=
           L [model; tN pc]
       | _, _ => tErr 6
       end
-  (* differential case: observed = (native wasm); the model's answer is the native
-     observation twice, so agreement of the two strategies is what is compared *)
+  (* differential case: observed = (native wasm).  There is no third implementation to compare
+     with: the native executor IS the reference, so the answer echoes the observation and the
+     whole verdict is the Pcheck code (equality of the two strategies' observations) *)
   | L (I 5 :: _) =>
       match observed with
-      | L [nat_obs; wasm_obs] => L [L [nat_obs; nat_obs]; tB (T_eqb nat_obs wasm_obs)]
+      | L [nat_obs; wasm_obs] => L [observed; I (diff_code nat_obs wasm_obs)]
       | _ => L [L []; tB false]
       end
   | _ => tErr 1
